@@ -185,7 +185,8 @@ def match_finding(findings, prop, oid, witness=""):
         pat = f.get("obligation", "")
         if pat and (oid == pat or oid.startswith(pat.rstrip("*")) and pat.endswith("*")):
             w = f.get("witness_class")
-            if not w or w in witness:
+            ws = ([w] if w else []) + list(f.get("witness_all", []))
+            if all(x in witness for x in ws):
                 return f
     return None
 
@@ -282,7 +283,9 @@ def run_property(prop, tier="quick", seed=0, only=None, jobs=None):
             f = match_finding(findings, prop, "standin/" + s["what"], wit)
             if f:
                 known_hits.append("standin/" + s["what"])
-                lines.append("KNOWN-FINDING: property=%s %s" % (prop, f.get("what", s["what"])))
+                ln = "KNOWN-FINDING: property=%s %s" % (prop, f.get("what", s["what"]))
+                if ln not in lines:
+                    lines.append(ln)
                 continue
             payload = dict(property=prop, obligation="standin/" + s["what"], bound=s["bound"], failure=fl,
                            replay=fl.get("replay"), tree=th)
